@@ -165,7 +165,15 @@ func one(op map[string]any, ln *Line, seed int64) {
 		panic(err)
 	}
 	defer cleanup()
-	srv, err := hs.NewServer(hs.ServerConfig{Seed: seed, StorageWrapper: sw, Inner: inner})
+	scfg := hs.ServerConfig{Seed: seed, StorageWrapper: sw, Inner: inner}
+	curExpired := str(op, "roots") == "curExpired"
+	if curExpired {
+		// short-lived roots, rotated lazily: the enrolment happens after the current root has expired and before the
+		// operator's next rotation call (the next root is valid for another five seconds)
+		scfg.Lifetime = 10 * time.Second
+		scfg.RootOpts = []nodeenrollment.Option{nodeenrollment.WithNotAfterClockSkew(0)}
+	}
+	srv, err := hs.NewServer(scfg)
 	if err != nil {
 		ln.Res, ln.Obs.Msg = "setup-error", err.Error()
 		return
@@ -173,6 +181,22 @@ func one(op map[string]any, ln *Line, seed int64) {
 	defer srv.Close()
 	w := srv.W
 	ctx := w.Ctx
+	var judgeBy time.Time
+	if curExpired {
+		r0, err := types.LoadRootCertificates(ctx, w.Inner, w.StorageOpts()...)
+		if err != nil {
+			ln.Res, ln.Obs.Msg = "setup-error", err.Error()
+			return
+		}
+		time.Sleep(time.Until(r0.Current.NotAfter.AsTime().Add(1200 * time.Millisecond)))
+		judgeBy = r0.Next.NotAfter.AsTime().Add(-1200 * time.Millisecond)
+		defer func() {
+			// too slow: the next root has (nearly) expired as well, nothing can be concluded from this run
+			if time.Now().After(judgeBy) {
+				ln.Res, ln.Obs.Msg = "setup-error", "run outlasted the validity of the next root"
+			}
+		}()
+	}
 	var state *structpb.Struct
 	if stateName != "none" {
 		state = w.States[stateName]
